@@ -235,7 +235,8 @@ def apply_op(sd, ni, op):
         if kind == "block":
             r = sd.expand_block(find_motif_avoidant_attractors=bool(op[1]), size_limit=op[2],
                                 optimize_source_nodes=False)
-            return str(bool(r)).lower(), None
+            # without the motif-avoidant check the traversal is a function of the diagram: modelled (Impl.expandBlock)
+            return str(bool(r)).lower(), (None if op[1] else f"BLOCK {fmt(op[2])}")
         if kind == "blockx":
             r = sd.expand_block(find_motif_avoidant_attractors=bool(op[1]), size_limit=op[2],
                                 optimize_source_nodes=bool(op[3]), exact_attractor_detection=bool(op[4]))
@@ -343,6 +344,8 @@ def _cmd_for_error(sd, ni, op, n):
     kind = op[0]
     if kind in ("one", "succ"):
         return f"EXPAND {op[1] % n}"
+    if kind == "block" and not op[1]:
+        return f"BLOCK {fmt(op[2])}"
     if kind == "bfs":
         return f"BFS {op[1] % n} {fmt(op[2])} {fmt(op[3])}"
     if kind == "dfs":
